@@ -32,20 +32,34 @@ Definition char_of (id : N) : option N :=
   | 1%N => Some 233%N           (* U+00E9 *)
   | 2%N => Some 8477%N          (* U+211D *)
   | 3%N => Some 128512%N        (* U+1F600 *)
+  | 4%N => Some 8364%N          (* U+20AC *)
   | _ => None
   end.
 
-Definition dec_framer (l : list N) : option (framer * list N) :=
-  match l with
-  | 1%N :: lfl :: be :: r =>
-    if ((1 <=? lfl) && (lfl <=? Consts.MAX_LFL) && (be <=? 1))%N
-    then Some (LenDelim (nn lfl) (N.eqb be 1), r) else None
-  | 2%N :: r =>
-    let? '(d, r') := dec_bytes r in
-    match d with [] => None | _ => Some (AnyDelim d, r') end
-  | 3%N :: id :: r => let? c := char_of id in Some (CharDelim c, r)
-  | 4%N :: r => Some (Noop (nn Consts.NOOP_MAX_SIZE), r)
+Definition ctor_of (n : N) : option ctor :=
+  match n with
+  | 0%N => Some CNew | 1%N => Some CDefault | 2%N => Some CCloneNew | 3%N => Some CCloneDefault
   | _ => None
+  end.
+
+(* framer: kind + 10 * construction path; AnyDelimited has no Default *)
+Definition dec_framer (l : list N) : option (framer * list N) :=
+  let? '(k, r) := take1 l in
+  let? ct := ctor_of (k / 10) in
+  match (k mod 10)%N, r with
+  | 1%N, lfl :: be :: r =>
+    if ((1 <=? lfl) && (lfl <=? Consts.MAX_LFL) && (be <=? 1))%N
+    then Some (framer_via ct (FLen (nn lfl) (N.eqb be 1)), r) else None
+  | 2%N, r =>
+    match ct with
+    | CDefault | CCloneDefault => None
+    | _ =>
+      let? '(d, r') := dec_bytes r in
+      match d with [] => None | _ => Some (framer_via ct (FAny d), r') end
+    end
+  | 3%N, id :: r => let? c := char_of id in Some (framer_via ct (FChar c), r)
+  | 4%N, r => Some (framer_via ct FNoop, r)
+  | _, _ => None
   end.
 
 Definition dec_frames (l : list N) : option (list (list N) * list N) :=
